@@ -9,8 +9,12 @@ import (
 	"io"
 	"os"
 	"runtime"
+	"sort"
 	"strconv"
 	"time"
+
+	"github.com/corazawaf/coraza/v3/verifrt"
+	"github.com/corazawaf/coraza/v3/verifrt/sitetab"
 )
 
 // memoryWatchdog turns a runaway allocation (a harness bug, or code under test
@@ -120,6 +124,40 @@ func main() {
 			fmt.Printf("other violation: %s\n", v.Fingerprint)
 		}
 		fmt.Println("not reproduced")
+	case "dettest":
+		// determinism self-test: every seed is executed in several fresh
+		// processes (different GOMAXPROCS); recorded tapes and violations must
+		// be identical
+		c := checks[os.Args[2]]
+		n, _ := strconv.Atoi(os.Args[4])
+		os.Exit(detTest(c, tierOf(os.Args[3]), n, os.Args[5]))
+	case "seq":
+		// debugging aid: run the given seeds one after the other in this process
+		c := checks[os.Args[2]]
+		for _, a := range os.Args[3:] {
+			seed, _ := strconv.ParseUint(a, 10, 64)
+			var tr []uint32
+			verifrt.TraceSites = &tr
+			ro := replayOnce(c, Quick, seed, nil)
+			verifrt.TraceSites = nil
+			cnt := map[uint32]int{}
+			for _, s := range tr {
+				cnt[s]++
+			}
+			fmt.Printf("seed %d: sched=%d work=%d viol=%d yields=%d\n", seed, len(ro.Tapes["sched"]), len(ro.Tapes["work"]), len(ro.Viol), len(tr))
+			if os.Getenv("VSIM_TRACE") != "" {
+				var keys []int
+				for k := range cnt {
+					keys = append(keys, int(k))
+				}
+				sort.Ints(keys)
+				for _, k := range keys {
+					fmt.Printf("  site %d %s x%d\n", k, sitetab.Sites[uint32(k)], cnt[uint32(k)])
+				}
+			}
+		}
+	case "golden":
+		c13GoldenMain()
 	case "selftest":
 		os.Exit(selftest(os.Args[2:]))
 	default:
